@@ -81,6 +81,9 @@ def generate(rng, tier):
             # truncated train: 1..4 packets, last one with or without TC
             npk = rng.choice([1, 2, 3, 4])
             tt = t
+            # now and then two queriers with the same cache send the very same train (same bytes), their packets
+            # interleaved in any order
+            twin = rng.random() < 0.2
             for i in range(npk):
                 m2 = dict(msg)
                 m2["id"] = qid
@@ -95,6 +98,10 @@ def generate(rng, tier):
                 # ephemeral port and has more known answers than fit one packet)
                 ops.append({"t": round(tt + 0.0000005 + qid * 0.000003, 7), "op": "send", "p": src_peer,
                             "src_port": sp if src_peer == "Q1" else 5353, "msg": m2})
+                if twin:
+                    other = "Q2" if src_peer == "Q1" else "Q1"
+                    ops.append({"t": round(tt + 0.0000005 + qid * 0.000003 + rng.choice([-0.002, 0.0000011, 0.001, 0.004, 0.03]), 7),
+                                "op": "send", "p": other, "src_port": 5353, "msg": m2})
                 qid += 1
                 tt += rng.choice([0.0, 0.01, 0.1, 0.399, 0.4, 0.401, 0.45, 0.499, 0.5, 0.501, 0.6])
             t = tt
